@@ -5,7 +5,11 @@ from props import PROPS, budget
 # kind "pipeline": a quiescent history replayed on the REAL transport.PipelineTransport (scripted server over
 #   net.Pipe with TCP framing, or a loopback UDP pair) and through Pipeline.run_history.
 #     <id> net=<tcp|udp> q0=<first wire id> ev=<e,e,...>
-#     S<cid> start exchange k (k = number of earlier S)   R<k>.<mark> server replies with exchange k's wire id
+#     S<cid>[:<flags>] start exchange k (k = number of earlier S); flags = write outcome chosen by the environment:
+#        h held inside net.Conn.Write until U<k>, o oversized query (65508..65535 octets: EMSGSIZE on a real datagram
+#        socket, connection stays open; a large frame over tcp), s scripted EMSGSIZE error, x scripted other error
+#        (udp: write closes the connection; tcp: stays open)       U<k> the held Write of exchange k returns
+#     R<k>.<mark> server replies with exchange k's wire id
 #     I<id>.<mark> server emits header id <id>            G undecodable message      C<k> cancel exchange k
 #     X peer close (tcp) / transport close (udp)          Y transport close
 #   result  o=<M<mark>|B<mark>|E|W>,...  w=<wire id seen by the server|->,...  closed=<0|1>
@@ -15,11 +19,12 @@ from props import PROPS, budget
 #   judged only by the property's oracle (no model comparison)
 
 
-def _steer(rng, q0, n_events, close_p=0.04, garbage_p=0.03):
-    """history generator; the tiny simulation below only STEERS the choice of events (never a verdict)"""
+def _steer(rng, q0, n_events, close_p=0.04, garbage_p=0.03, wfail=0.0, net="tcp"):
+    """history generator; the tiny simulation below only STEERS the choice of events (never a verdict).
+    wfail > 0: starts whose write is held and / or fails while other exchanges are in flight"""
     ev = []
-    started = []        # per exchange: dict(cid, wid or None, st in pending|done|cancelled|failed)
-    closed = False
+    started = []        # per exchange: dict(cid, wid or None, st in pending|held|done|cancelled|failed, flags)
+    state = dict(closed=False)
     mark = [rng.randrange(1, 1000)]
 
     def nm():
@@ -29,9 +34,24 @@ def _steer(rng, q0, n_events, close_p=0.04, garbage_p=0.03):
     def nextid():
         return q0 + len([e for e in started if e["wid"] is not None])
 
+    def plan(flags):
+        """(fails, closes) of a write with these flags"""
+        if "x" in flags:
+            return True, net == "udp"
+        if "s" in flags:
+            return True, False
+        if "o" in flags and net == "udp":
+            return True, False
+        return False, False
+
+    def close_all():
+        state["closed"] = True
+        for e in started:
+            if e["st"] == "pending":
+                e["st"] = "failed"
+
     def start():
         k = len(started)
-        pend = [e for e in started if e["st"] == "pending"]
         r = rng.random()
         if r < 0.35 and started:
             cid = rng.choice(started)["wid"] or 0        # caller id == some exchange's WIRE id
@@ -43,25 +63,50 @@ def _steer(rng, q0, n_events, close_p=0.04, garbage_p=0.03):
             cid = rng.choice([0, 1, 65535, 65534])
         else:
             cid = rng.randrange(65536)
+        flags = ""
+        if wfail and rng.random() < wfail:
+            flags = rng.choice(["h", "h", "ho", "hs", "hx", "o", "s", "x", "hs", "ho"])
         wid = None
         st = "failed"
-        if not closed and nextid() <= 65535:
-            wid = nextid()
-            st = "pending"
-        started.append(dict(cid=cid, wid=wid, st=st))
-        ev.append("S%d" % cid)
+        if not state["closed"] and nextid() <= 65535:
+            wid = nextid()                               # the id is consumed whatever the write does
+            fails, closes = plan(flags)
+            if "h" in flags:
+                st = "held"
+            elif fails:
+                st = "failed"
+                if closes:
+                    close_all()
+            else:
+                st = "pending"
+        started.append(dict(cid=cid, wid=wid, st=st, flags=flags))
+        ev.append("S%d%s" % (cid, (":" + flags) if flags else ""))
+
+    def release(k):
+        e = started[k]
+        ev.append("U%d" % k)
+        fails, closes = plan(e["flags"])
+        if state["closed"] or fails:
+            e["st"] = "failed"
+            if fails and closes and not state["closed"]:
+                close_all()
+        else:
+            e["st"] = "pending"
 
     start()
     while len(ev) < n_events:
         pend = [k for k, e in enumerate(started) if e["st"] == "pending"]
+        held = [k for k, e in enumerate(started) if e["st"] == "held"]
         done = [k for k, e in enumerate(started) if e["st"] in ("done", "cancelled")]
         r = rng.random()
-        if r < 0.24:
+        if held and rng.random() < 0.3:
+            release(rng.choice(held))                     # typically after other exchanges took later ids
+        elif r < 0.24:
             start()
         elif r < 0.50 and pend:
             k = rng.choice(pend)                          # out-of-order: any pending exchange
             ev.append("R%d.%d" % (k, nm()))
-            if not closed:
+            if not state["closed"]:
                 started[k]["st"] = "done"
         elif r < 0.62 and done:
             k = rng.choice(done)                          # duplicate / late-after-cancel
@@ -73,30 +118,36 @@ def _steer(rng, q0, n_events, close_p=0.04, garbage_p=0.03):
             elif c < 0.6 and started:
                 i = rng.choice(started)["cid"]            # some caller's own id
             elif c < 0.8 and started:
-                w = rng.choice(started)["wid"]
-                i = (w if w is not None else 0) + rng.choice([-1, 1, 256, -256])
+                w = rng.choice(started)["wid"]            # also the id of a held or failed exchange
+                i = (w if w is not None else 0) + rng.choice([-1, 1, 256, -256, 0, 0] if wfail else [-1, 1, 256, -256])
             else:
                 i = rng.randrange(65536)
             i = max(0, min(65535, i))
             ev.append("I%d.%d" % (i, nm()))
             for k in pend:
-                if started[k]["wid"] == i and not closed:
+                if started[k]["wid"] == i and not state["closed"]:
                     started[k]["st"] = "done"
         elif r < 0.88 and (pend or done):
             k = rng.choice(pend) if (pend and rng.random() < 0.8) else rng.choice(pend + done)
+            if "h" in started[k]["flags"]:
+                continue          # a reply may already sit in the channel of an exchange that was inside write: the
+                                  # select would have two ready arms (Go picks at random); never cancel those
             ev.append("C%d" % k)
             if started[k]["st"] == "pending":
                 started[k]["st"] = "cancelled"
         elif r < 0.88 + garbage_p:
             ev.append("G")
+            if net == "tcp" and wfail:
+                close_all()
         elif r < 0.88 + garbage_p + close_p:
             ev.append(rng.choice(["X", "Y"]))
-            closed = True
-            for e in started:
-                if e["st"] == "pending":
-                    e["st"] = "failed"
+            close_all()
         else:
             start()
+    if wfail:
+        for k, e in enumerate(started):
+            if e["st"] == "held" and rng.random() < 0.8:
+                release(k)
     return ev
 
 
@@ -117,6 +168,16 @@ def c05_pipeline_gen(rng, tier):
             ln = rng.choice([6, 10, 16, 24, 40]) if tier == "quick" else rng.choice([8, 16, 32, 64, 120])
             ev = _steer(rng, q0, ln, close_p=rng.choice([0.0, 0.0, 0.04, 0.08]), garbage_p=rng.choice([0.0, 0.0, 0.03]))
             out.append("h%s%d net=%s q0=%d ev=%s" % (net[0], i, net, q0, ",".join(ev)))
+    # write failures interleaved with live exchanges (held writes, oversized datagrams, scripted write errors)
+    n = budget(tier, 150, 3000)
+    for net in ("udp", "tcp"):
+        for i in range(n):
+            r = rng.random()
+            q0 = 0 if r < 0.7 else (65536 - rng.choice([2, 3, 4, 6, 9, 14]) if r < 0.92 else rng.randrange(1, 65000))
+            ln = rng.choice([5, 8, 12, 20, 32]) if tier == "quick" else rng.choice([8, 16, 32, 64])
+            ev = _steer(rng, q0, ln, close_p=rng.choice([0.0, 0.0, 0.03]), garbage_p=rng.choice([0.0, 0.0, 0.02]),
+                        wfail=rng.choice([0.25, 0.4, 0.6]), net=net)
+            out.append("w%s%d net=%s q0=%d ev=%s" % (net[0], i, net, q0, ",".join(ev)))
     return out
 
 
@@ -139,6 +200,9 @@ def c05_pipeline_oracle(line, res):
     f, r, ev, outs, wids = _parse_pipeline(line, res)
     if len(outs) != len(wids):
         return "malformed result"
+    if r.get("reuse", "0") != "0":
+        return "a wire id was used by two exchanges during the connection's life (%s id(s) found in the Write calls " \
+               "of two exchanges)" % r["reuse"]
     sent = {}                                  # mark -> wire id it was emitted with
     for e in ev:
         if e[0] == "R":
@@ -186,6 +250,9 @@ def c05_pipeline_classify(line, res):
         cls.append("cancel")
     if "I" in ev:
         cls.append("unsol")
+    if ":" in ev:
+        cls.append("wfail" if any(c in fl for fl in [e.split(":")[1] for e in ev.split(",") if ":" in e] for c in "osx")
+                   else "whold")
     return "+".join(cls)
 
 
@@ -226,12 +293,19 @@ def c05_conc_gen(rng, tier):
                 i, rng.choice(["tcp", "udp"]), rng.choice([5000, 20000]), rng.choice([8, 32, 64, 128]),
                 rng.randrange(1 << 30), rng.choice([0, 0, 65536 - rng.randrange(100, 3000)]),
                 rng.choice([0, 10, 30]), rng.choice([0, 10, 30]), rng.choice([0, 1, 3]), rng.choice([0, 3, 10])))
+        for i in range(6):
+            out.append("kb%d net=%s n=%d par=%d seed=%d q0=%d dup=10 unsol=10 drop=1 cancel=3 big=%d" % (
+                i, rng.choice(["tcp", "udp"]), rng.choice([5000, 20000]), rng.choice([8, 32, 64]), rng.randrange(1 << 30),
+                rng.choice([0, 0, 65536 - rng.randrange(100, 3000)]), rng.choice([1, 3, 10])))
         out.append("kfull net=tcp n=70000 par=64 seed=%d q0=0 dup=10 unsol=10 drop=0 cancel=2" % rng.randrange(1 << 30))
     else:
         out.append("k0 net=tcp n=4000 par=24 seed=%d q0=0 dup=20 unsol=20 drop=1 cancel=5" % rng.randrange(1 << 30))
         out.append("k1 net=udp n=4000 par=24 seed=%d q0=0 dup=20 unsol=20 drop=1 cancel=5" % rng.randrange(1 << 30))
         out.append("k2 net=tcp n=3000 par=16 seed=%d q0=%d dup=20 unsol=20 drop=0 cancel=3" % (
             rng.randrange(1 << 30), 65536 - rng.randrange(200, 900)))
+        # write failures (oversized queries, with the transport's retries) among the successful exchanges
+        out.append("k3 net=udp n=3000 par=24 seed=%d q0=0 dup=10 unsol=10 drop=0 cancel=2 big=4" % rng.randrange(1 << 30))
+        out.append("k4 net=tcp n=3000 par=24 seed=%d q0=0 dup=10 unsol=10 drop=0 cancel=2 big=4" % rng.randrange(1 << 30))
     return out
 
 
@@ -406,14 +480,18 @@ PROPS["C05"] = dict(
              nontrivial=lambda l, r: "viol=none" in r and len(set(gens.fields(l)["ex"].split(","))) <
              len(gens.fields(l)["ex"].split(",")), timeout=900),
         dict(name="pipeline_conc", gen=c05_conc_gen, oracle=c05_conc_oracle, model=False,
-             classify=lambda l, r: gens.fields(l).get("net", "?") + ("+eol" if gens.fields(l).get("q0", "0") != "0" else ""),
+             classify=lambda l, r: gens.fields(l).get("net", "?") + ("+eol" if gens.fields(l).get("q0", "0") != "0" else "") +
+             ("+wfail" if gens.fields(l).get("big", "0") != "0" else ""),
              nontrivial=lambda l, r: "viol=none" in r, timeout=1500),
     ],
     rule="pipeline: quiescent histories (start / reply by exchange / absolute-id emission / garbage / cancel / close) "
          "from VERIF_SEED, half over net.Pipe with TCP framing, half over a loopback UDP pair, first wire id 0 or "
          "preset near 65535 through the verif hook; replayed on the real PipelineTransport and through "
          "Pipeline.run_history; distinct = distinct case line; non-trivial = at least one exchange returned a "
-         "message. pipeline_eol: >65536 sequential exchanges on one real connection. pipeline_burst: "
+         "message; plus histories with write failures interleaved with live exchanges (a Write held inside "
+         "net.Conn.Write while later exchanges take ids, then failing: oversized query = the kernel's EMSGSIZE on the "
+         "real datagram socket, scripted EMSGSIZE / other errors on both transports; wire ids of ALL Write calls "
+         "recorded, failed ones included). pipeline_eol: >65536 sequential exchanges on one real connection. pipeline_burst: "
          "connections preset to 65536-k (k=0..3) and bursts of >= k+2 exchanges released together through the real "
          "transport, stale replies for ids 0/1, oracle only. pipeline_shared: bursts of exchanges called with "
          "the SAME payload slice (plus slices of their own, sequential reuse, ids near the end), all writers held "
@@ -431,7 +509,9 @@ PROPS["C05"] = dict(
     trusted=["C05: scripted server + conn wrapper in harness/cmd/implrun/c05.go; verif hook "
              "transport.VerifNewPipelineTransportPreset (copy of NewPipelineTransport that presets nextQid); "
              "pipeline_shared: wrapper around the dialled net.Conn whose Write waits until every exchange of the burst is "
-             "inside Write (harness/cmd/implrun/c05c.go)"],
+             "inside Write (harness/cmd/implrun/c05c.go); pipeline: the same wrapper holds / fails the Write of chosen "
+             "exchanges and cancels the caller of a failing Write (no transport retry: one exchange = one model thread; "
+             "retries run in pipeline_conc big=)"],
     level_note="partial: theorems cover every schedule of the model's atomic actions (addQueueC, write, read, "
                "getQueueC, non-blocking send, select arms, deleteQueueC, close) for any number of exchanges and any "
                "server behaviour; atomicity of the Go mutex/channel primitives and the one-step closeWithErr are "
